@@ -48,5 +48,6 @@ World(s) == CHOOSE w \in MCWorlds : w = [dirs |-> <<"A", "B">>,
 C14Worlds == { World(AllTrue), World(OnlyBc), World(NoShadow) }
 MCInitSpecsP1 == {P1}
 MCHosts1 == {HA}
-MCHosts3 == {HA, HB, HC}
+HD == [h1 |-> HS("b", 8, 7), h2 |-> HS("c", 5, 2)]
+MCHosts3 == {HA, HB, HC, HD}
 =============================================================================
